@@ -92,6 +92,12 @@ Record member := {
   m_main_test : bool        (* function whose __qualname__ starts with "main" or "test" *)
 }.
 
+(* __analyse_class: the constructor (or enum) of a class is withheld when the class is abstract or IS
+   one of the builtin collection / primitive types (Pynguin generates those values itself).  A class
+   of the module under test is never a builtin type, even when it derives from one. *)
+Definition ctor_withheld (is_abstract in_collections in_primitives : bool) : bool :=
+  is_abstract || in_collections || in_primitives.
+
 Definition is_function (m : member) := match m_kind m with Function => true | _ => false end.
 Definition is_constructor (m : member) := match m_kind m with Constructor => true | _ => false end.
 
